@@ -62,7 +62,7 @@ def run_e4(ck, prog, scope, must, exceptions=None, floor=0):
 
 
 def cholesky_guard(ck, prog):
-    rule, inst = "E1-guard", "cholesky_mut: negative pivot -> Err before sqrt"
+    rule, inst = "E1-guard", "cholesky_mut: non-positive pivot -> Err before sqrt"
     try:
         b = prog.one(r"^linalg::cholesky::CholeskyDecomposableMatrix::cholesky_mut$")
     except AnchorError as e:
@@ -75,7 +75,7 @@ def cholesky_guard(ck, prog):
         ck.violation(rule, inst, b.path, "", expected="a sqrt of the pivot", found="no sqrt call")
         return
     ok = False
-    detail = "no comparison of the pivot (the argument of sqrt) with zero whose negative side returns Err"
+    detail = "no comparison of the pivot (the argument of sqrt) with zero whose negative and zero sides return Err"
     for c in cx.cmps:
         for (L, R, rel) in ((c.lhs, c.rhs, c.rel), (c.rhs, c.lhs, guards.FLIP[c.rel])):
             if not zero(R):
@@ -88,7 +88,7 @@ def cholesky_guard(ck, prog):
                 if guards.outcome_ok(outs, "Err"):
                     viol |= guards.ATOMS[edge_rel]
             dom = all(b.dominates(c.bb, sb) for sb, s in sqrts if s == L)
-            if "n" in viol and "p" not in viol and dom:
+            if "n" in viol and "z" in viol and "p" not in viol and dom:
                 ok = True
                 detail = f"`{render(L)[:60]} ? 0`: refused on {sorted(viol)} with Err; dominates sqrt"
                 site = c.where
@@ -110,14 +110,14 @@ def cholesky_guard(ck, prog):
             for j, a in enumerate(t["args"]):
                 at = cx.res.operand(a)
                 if any(at == s for _, s in sqrts) and all(b.dominates(bb, sb) for sb, s in sqrts if s == at) and e1._propagates_err(b, cx, bb, t):
-                    g2 = G(inst, cal, Arg(j + 1), zero, "n", "p", "Err", interproc=False)
+                    g2 = G(inst, cal, Arg(j + 1), zero, "nz", "p", "Err", interproc=False)
                     ok2, d2, sites, _ = e1.eval_guard(prog, g2, cal)
                     if ok2:
                         ok, site, detail = True, sites[0] if sites else b.where(bb), f"via {cal.path}: {d2}; ?-propagated; dominates sqrt"
     if ok:
         ck.ok(rule, inst, b.path, site, detail)
     else:
-        ck.violation(rule, inst, b.path, f"{b.loc[0]}:{b.loc[1]}", expected="pivot < 0 -> Err on every path, pivot > 0 accepted, test dominates sqrt(pivot)", found=detail)
+        ck.violation(rule, inst, b.path, f"{b.loc[0]}:{b.loc[1]}", expected="pivot < 0 and pivot == 0 -> Err on every path (a zero pivot becomes a zero divisor of the next row: 0/0 = NaN, and NaN < 0 is false, so an indefinite matrix is then accepted with NaN factors), pivot > 0 accepted, test dominates sqrt(pivot)", found=detail)
 
 
 def run(ck, prog):
@@ -227,3 +227,75 @@ def run(ck, prog):
     _run_pre_negcast(ck, prog)
     from sa import negcast
     negcast.run_rule(ck, prog, set(DIMENSION_FILES))
+
+
+# ------------------------------------------------------------------ SVD::solve writes the solution where it fits
+_run_pre_svdsolve = run
+
+
+def svd_solve_rows(ck, prog):
+    """'for SVD, wide' shapes are in the domain: the solution of A X = B has n = cols(A) rows while B has m = rows(A) rows.
+    SVD::solve checks rows(b) against rows(U) (= m) and then stores the solution row by row; the rows it stores into must be
+    bounded by the row count of the matrix it stores into - rows(b) (or the quantity rows(b) was checked against) when it
+    reuses b, the allocated row count when it builds a fresh result. A loop over 0..self.n writing into b is out of range
+    for every wide A (and leaves m - n stale rows for every tall A)."""
+    from sa.match import dim_of
+    rule, inst = "E2-dimension", "SVD::solve: the rows stored are bounded by the row count of the matrix stored into"
+    bs = prog.find(r"^linalg::svd::SVD::<T, M>::solve$")
+    if len(bs) != 1:
+        ck.violation(rule, inst, "SVD::solve", "", expected="anchor exists", found=f"{len(bs)} bodies")
+        return
+    b = bs[0]
+    cx = BodyCtx.of(b)
+    res = cx.res
+    # what rows(b) is checked against
+    checked = []
+    for c in cx.cmps:
+        for (L, R) in ((c.lhs, c.rhs), (c.rhs, c.lhs)):
+            d = dim_of(L)
+            if d and d[0] == "rows" and d[1][0] == "arg" and d[1][1] == 2:
+                checked.append(render(R))
+    n = 0
+    from sa.prov import alts
+    for bb, t in b.calls():
+        f = t.get("f")
+        if not (f and f["path"].endswith("BaseMatrix::set") and len(t["args"]) == 4):
+            continue
+        base = res.operand(t["args"][0])
+        row = res.operand(t["args"][1])
+        if not (row[0] == "field" and row[2] == "0" and row[1][0] == "variant"):
+            continue
+        nx = row[1][1]
+        bound = None
+        if nx[0] == "call" and nx[1].endswith("Iterator::next") and nx[2]:
+            for a in alts(nx[2][0]):
+                if a[0] == "agg" and a[1].endswith("Range::Range"):
+                    bound = a[2][1]
+        if bound is None:
+            continue
+        n += 1
+        into_arg = any(a[0] == "arg" and a[1] == 2 for a in [base] + list(alts(base)))
+        if into_arg:
+            db = dim_of(bound)
+            ok = (db and db[0] == "rows" and db[1][0] == "arg" and db[1][1] == 2) or render(bound) in checked
+            what = "b (the right-hand side, whose row count is checked against " + (checked[0] if checked else "nothing") + ")"
+        else:
+            sizes = [render(x[2][0]) for x in [base] + list(alts(base)) if x[0] == "call" and x[1].endswith("::zeros") and x[2]]
+            ok = render(bound) in sizes or not sizes
+            what = f"a fresh matrix with {sizes[0] if sizes else '?'} rows"
+        if ok:
+            ck.ok(rule, inst, b.path, b.where(bb), f"rows 0..{render(bound)} stored into {what}")
+        else:
+            ck.violation(rule, inst, b.path, b.where(bb), ordinal=n,
+                         expected="the stored rows range over the row count of the matrix they are stored into",
+                         found=f"rows 0..{render(bound)} are stored into {what}: out of range whenever A has more columns than rows")
+    if n == 0:
+        ck.note(f"{inst}: no row-indexed stores in SVD::solve: no instance")
+
+
+def run(ck, prog):
+    _run_pre_svdsolve(ck, prog)
+    svd_solve_rows(ck, prog)
+
+
+EXPLANATION += (" Cholesky: a pivot that is not strictly positive is refused (a zero pivot is the next row's divisor; found and fixed: NaN factors for indefinite matrices). SVD::solve: the rows stored are bounded by the row count of the matrix stored into (found and fixed: out-of-range writes for every wide system).")
